@@ -6,6 +6,7 @@ import (
 	"encoding/binary"
 	"fmt"
 	"math/rand"
+	"runtime"
 	"sort"
 	"strings"
 	"sync"
@@ -72,6 +73,8 @@ type concCfg struct {
 	readers      int  // concurrent list readers (snapshot stability)
 	noIdle       bool // production sequencer timing
 	compactor    bool // a compaction loop (Compact(committed - small lag)) runs next to the clients
+	compactAhead bool // the compaction loop names revisions above the readable one (a client's idea of "now" from another node)
+	watchers     int  // clients that keep opening watches from the current revision (served from the event cache) and closing them
 	initStates   []string
 }
 
@@ -372,7 +375,12 @@ func (cr *concRun) run(c *harness.Case) {
 			for atomic.LoadInt32(&stop) == 0 {
 				cur := cr.n.Committed()
 				lag := uint64(rr.Intn(6))
-				if cur > cr.n.Start+lag {
+				if cfg.compactAhead && rr.Intn(2) == 0 {
+					// at or above the newest revision handed out: writes still on their way to the engine lie below it
+					if _, err := cr.n.B.Compact(harness.Ctx, cr.n.Dealt()+uint64(rr.Intn(4))); err == nil {
+						atomic.AddInt64(&cr.compactions, 1)
+					}
+				} else if cur > cr.n.Start+lag {
 					if _, err := cr.n.B.Compact(harness.Ctx, cur-lag); err == nil {
 						atomic.AddInt64(&cr.compactions, 1)
 					}
@@ -380,6 +388,38 @@ func (cr *concRun) run(c *harness.Case) {
 				time.Sleep(time.Duration(100+rr.Intn(400)) * time.Microsecond)
 			}
 		}()
+	}
+	// watchers: open a watch from the revision just read (catch-up from the event cache while writes are being
+	// sequenced), take what comes for a moment, close it, again
+	var wwg sync.WaitGroup
+	var nWatches int64
+	for wi := 0; wi < cfg.watchers; wi++ {
+		wwg.Add(1)
+		go func(wi int) {
+			defer wwg.Done()
+			<-startGate
+			for atomic.LoadInt32(&stop) == 0 {
+				ctx, cancel := context.WithCancel(context.Background())
+				ch, err := cr.n.B.Watch(ctx, harness.Prefix+"/", cr.n.Committed())
+				if err == nil {
+					atomic.AddInt64(&nWatches, 1)
+					tm := time.After(time.Duration(300+200*wi) * time.Microsecond)
+				take:
+					for {
+						select {
+						case _, ok := <-ch:
+							if !ok {
+								break take
+							}
+						case <-tm:
+							break take
+						}
+					}
+				}
+				cancel()
+				time.Sleep(time.Duration(100+50*wi) * time.Microsecond)
+			}
+		}(wi)
 	}
 	close(startGate)
 	done := make(chan struct{})
@@ -394,6 +434,20 @@ func (cr *concRun) run(c *harness.Case) {
 		return
 	}
 	atomic.StoreInt32(&stop, 1)
+	if cfg.watchers > 0 {
+		wdone := make(chan struct{})
+		go func() { wwg.Wait(); close(wdone) }()
+		select {
+		case <-wdone:
+		case <-time.After(45 * time.Second):
+			cr.stalled = true
+			buf := make([]byte, 1<<20)
+			w := map[string]interface{}{"engine": cfg.kind, "blocked_goroutines": harness.TrimDump(string(buf[:runtime.Stack(buf, true)]), 12, "kubebrain/pkg/")}
+			c.Violatef(c.Prop+" watch-request-never-returns during-writes", w, "every writing client has finished; a client that kept opening watches from the current revision and closing them has been inside one request for 45 s on an otherwise idle node (%d watches had been opened)", atomic.LoadInt64(&nWatches))
+			return
+		}
+		c.Stat("watches_opened_from_the_current_revision_during_writes", atomic.LoadInt64(&nWatches))
+	}
 	rwg.Wait()
 	for _, l := range perClient {
 		cr.ops = append(cr.ops, l...)
